@@ -29,9 +29,22 @@ static int arr_octet(void *drv, void *out)
     return 1;
 }
 typedef struct { unsigned char b[32]; size_t n; } Cap;
+/* A sink may itself encode something while it is being fed (a tee or trace sink): every second call of the capturing driver first
+ * sends other values through all four *_to_sink functions into a throw-away sink.  The encoders are expected to be re-entrant. */
+static int cap_depth;
+static unsigned cap_calls;
+static ssize_t cap_void(void *drv, const void *buf, size_t n) { (void)drv; (void)buf; return (ssize_t)n; }
 static ssize_t cap_chunk(void *drv, const void *buf, size_t n)
 {
     Cap *c = drv;
+    if (cap_depth == 0 && (cap_calls++ % 2) == 0) {
+        Sink v;
+        cap_depth++;
+        chunk_sink_init(&v, cap_void, NULL);
+        (void)varint_u32_to_sink(&v, 0x0FFFFFFFu); (void)varint_s32_to_sink(&v, -2);
+        (void)varint_u64_to_sink(&v, 0x7FFFFFFFFFFFull); (void)varint_s64_to_sink(&v, -3);
+        cap_depth--;
+    }
     if (c->n + n > sizeof c->b) return -ENOMEM;
     memcpy(c->b + c->n, buf, n);
     c->n += n;
